@@ -5,6 +5,9 @@
 //! step, exactly as `Handler::create_index` does it: `enable_incremental` + `register_index` under
 //! `with_kg_mut`) and its `twin`, which receives the same steps except `idx`/`idxdrop`.
 //! Output = the per-step results joined by ` ; ` (see `step`).
+//! cfg `se` drives `StorageEngine` directly; cfg `h` sends every step as IQL text through the protocol
+//! `Handler::execute_program` (schema + `.index create` for `idx`); there acknowledgements are reduced to
+//! `ok`/`err`, `m`/`mat` reach the manager through `Handler::get_storage()`.
 //!
 //! Steps (rules are encoded structurally, the harness renders IQL text):
 //!   ins r 1,2 3,4      insert tuples            -> `ins:<new>,<dup>` | `ins:err:<kind>`
@@ -203,10 +206,97 @@ impl Eng {
     }
 }
 
+
+// ---------------------------------------------------------------------------------------------
+// cfg `h`: the same history as IQL text through the protocol handler
+// ---------------------------------------------------------------------------------------------
+use inputlayer::protocol::handler::Handler;
+use inputlayer::protocol::wire::WireValue;
+
+struct HEng { h: Handler, _d: tempfile::TempDir, inc: bool, names: Vec<String> }
+impl HEng {
+    fn new(inc: bool, names: Vec<String>) -> HEng {
+        let d = tempfile::TempDir::new().unwrap();
+        let h = Handler::from_config(cfg(d.path())).unwrap();
+        HEng { h, _d: d, inc, names }
+    }
+    fn run(&self, rt: &tokio::runtime::Runtime, text: &str) -> Result<Vec<Tuple>, String> {
+        let r = rt.block_on(self.h.execute_program(None, Some(KG.to_string()), text.to_string(), None))?;
+        Ok(r.rows.iter().map(|t| Tuple::new(t.values.iter().map(|v| match v {
+            WireValue::Int64(n) => Value::Int64(*n), WireValue::Int32(n) => Value::Int32(*n), _ => Value::Null }).collect())).collect())
+    }
+    /// the handler's acknowledgements are its own business (most failures are reported as messages of a
+    /// successful reply): only the state they leave behind is compared, through `q`, `mat` and `m`
+    fn ack(&self, rt: &tokio::runtime::Runtime, _tag: &str, text: &str) -> String {
+        let _ = self.run(rt, text); ".".into()
+    }
+    fn query_tuples(&self, rt: &tokio::runtime::Runtime, a: &Atom) -> Result<Vec<Tuple>, String> { self.run(rt, &format!("?{}", atom_text(a))) }
+    fn step(&self, rt: &tokio::runtime::Runtime, parts: &[&str]) -> Option<String> {
+        let tup = |t: &str| format!("({})", t.split(',').collect::<Vec<_>>().join(", "));
+        Some(match parts {
+            ["ins", rel, ts @ ..] if !ts.is_empty() => self.ack(rt, "ins", &format!("+{rel}[{}]", ts.iter().map(|t| tup(t)).collect::<Vec<_>>().join(", "))),
+            ["del", rel, ts @ ..] if !ts.is_empty() => { let mut ok = true; for t in ts { if self.run(rt, &format!("-{rel}{}", tup(t))).is_err() { ok = false; } } let _ = ok; ".".into() }
+            ["reg", rule] => { let c = parse_clause(rule)?; self.ack(rt, "reg", &format!("+{}", clause_text(&c))) }
+            ["rmc", name, idx] => { let k: usize = idx.parse().ok()?; self.ack(rt, "rmc", &format!(".rule remove {name} {}", k + 1)) }
+            ["clr", name] => self.ack(rt, "clr", &format!(".rule clear {name}")),
+            ["drop", name] => self.ack(rt, "drop", &format!(".rule drop {name}")),
+            ["dropp", pre] => self.ack(rt, "dropp", &format!(".rule drop prefix {pre}")),
+            ["drel", name] => self.ack(rt, "drel", &format!(".rel drop {name}")),
+            ["clrp", pre] => self.ack(rt, "clrp", &format!(".clear prefix {pre}")),
+            ["idx"] => { if !self.inc { return Some(String::new()); }
+                let _ = self.run(rt, "+vecs(id: int, v: vector)");
+                self.ack(rt, "idx", ".index create ix on vecs(v)") }
+            ["idxdrop"] => { if !self.inc { return Some(String::new()); } self.ack(rt, "idxdrop", ".index drop ix") }
+            ["m"] => { if !self.inc { return Some(String::new()); }
+                let st = self.h.get_storage();
+                let names = &self.names;
+                let r = st.with_kg_read(KG, |k| Ok(match k.incremental() {
+                    None => "m:off".to_string(),
+                    Some(dd) => { let mgr = dd.derived_relations(); let g = mgr.lock();
+                        let valid = g.get_all_valid_materializations();
+                        let mut mats = vec![]; for n in names { if let Some(ts) = valid.get(n) { mats.push(format!("{n}={}", rel_out(ts))); } }
+                        let mut deps = vec![]; for n in names { if let Some(s) = g.get_dependent_derived(n) { let mut v: Vec<&String> = s.iter().collect(); v.sort();
+                            if !v.is_empty() { deps.push(format!("{n}>{}", v.iter().map(|x| x.as_str()).collect::<Vec<_>>().join("."))); } } }
+                        let mut rules = vec![]; for n in names { if g.is_derived(n) { rules.push(n.as_str()); } }
+                        format!("m:{}/{}/{}", mats.join(","), deps.join(","), rules.join(",")) } }));
+                r.unwrap_or_else(|_| "m:err".into()) }
+            _ => return None,
+        })
+    }
+}
+
+fn exec_h(tail: &str, names: Vec<String>) -> String {
+    let rt = tokio::runtime::Builder::new_current_thread().enable_all().build().unwrap();
+    let inc = HEng::new(true, names);
+    let twin = HEng::new(false, vec![]);
+    let mut out = vec![];
+    for item in tail.split(" ; ") {
+        let parts: Vec<&str> = item.split(' ').collect();
+        if let ["mat", name, ar] = parts[..] {
+            let ar: usize = match ar.parse() { Ok(n) if n >= 1 && n <= 3 => n, _ => return "bad-request".into() };
+            let a = Atom { rel: name.to_string(), args: (0..ar).map(|i| format!("V{i}")).collect() };
+            let r = match twin.query_tuples(&rt, &a) {
+                Err(_) => "mat:err".to_string(),
+                Ok(ts) => { let st = inc.h.get_storage();
+                    match st.with_kg_read(KG, |k| k.materialize_derived_relation(name, ts.clone())) { Ok(()) => format!("mat:{}", rel_out(&ts)), Err(_) => "mat:off".into() } } };
+            out.push(r); continue;
+        }
+        if let ["q", atom] = parts[..] {
+            let a = match parse_atom(atom) { Some(a) => a, None => return "bad-request".into() };
+            let f = |e: &HEng| match e.query_tuples(&rt, &a) { Ok(ts) => rel_out(&ts), Err(_) => "err".to_string() };
+            out.push(format!("q:{}/{}", f(&inc), f(&twin))); continue;
+        }
+        let r1 = match inc.step(&rt, &parts) { Some(r) => r, None => return "bad-request".into() };
+        let r2 = twin.step(&rt, &parts).unwrap_or_default();
+        if r2.is_empty() || r1 == r2 { out.push(r1) } else { out.push(format!("{r1}!twin:{r2}")) }
+    }
+    out.join(" ; ")
+}
+
 pub fn exec(req: &str) -> String {
     let (head, tail) = match req.split_once(" | ") { Some(x) => x, None => (req, "") };
     let hp: Vec<&str> = head.split(' ').collect();
-    if hp.len() != 2 || hp[0] != "c18.hist" || hp[1] != "se" { return "bad-request".into(); }
+    if hp.len() != 2 || hp[0] != "c18.hist" || (hp[1] != "se" && hp[1] != "h") { return "bad-request".into(); }
     // every lower-case identifier of the request, sorted: the names the `m` dump probes
     let mut names: Vec<String> = vec![];
     let mut cur = String::new();
@@ -215,6 +305,8 @@ pub fn exec(req: &str) -> String {
         else { if !cur.is_empty() { names.push(std::mem::take(&mut cur)); } }
     }
     names.sort(); names.dedup();
+    if tail.is_empty() { return String::new(); }
+    if hp[1] == "h" { return exec_h(tail, names); }
     let mut inc = Eng::new(true, names);
     let mut twin = Eng::new(false, vec![]);
     let mut out = vec![];
@@ -339,12 +431,13 @@ fn rnd_query(ctx: &mut Ctx, rel: &str) -> String {
     format!("q {}({})", rel, args.join(","))
 }
 
-struct Hist { items: Vec<String>, sh: Shadow }
+struct Hist { items: Vec<String>, sh: Shadow, handler: bool }
 impl Hist {
-    fn new() -> Hist { Hist { items: vec![], sh: Shadow::default() } }
+    fn new(handler: bool) -> Hist { Hist { items: vec![], sh: Shadow::default(), handler } }
     /// push unless the shadow says the step leaves the supported fragment
     fn push(&mut self, ctx: &mut Ctx, item: String) -> bool {
         let parts: Vec<&str> = item.split(' ').collect();
+        if self.handler && parts[0] == "rep" { return false; }       // "Rule editing is not supported in server mode"
         if !self.sh.apply(&parts) { ctx.count("gen_rejected_shape"); return false; }
         ctx.count(&format!("step_{}", parts[0]));
         self.items.push(item); true
@@ -368,11 +461,11 @@ impl Hist {
         for (r, ar) in BASE { if ctx.chance(3, 4) { let k = 1 + ctx.below(3); let it = format!("ins {r} {}", (0..k).map(|_| rnd_tuple(ctx, ar)).collect::<Vec<_>>().join(" ")); self.push(ctx, it); } }
     }
     fn reg(&mut self, ctx: &mut Ctx, head: &str, rels: &[&str]) -> bool { let c = rnd_clause(ctx, head, rels); self.push(ctx, format!("reg {}", clause_wire(&c))) }
-    fn line(&self) -> String { format!("c18.hist se | {}", self.items.join(" ; ")) }
+    fn line(&self) -> String { format!("c18.hist {} | {}", if self.handler { "h" } else { "se" }, self.items.join(" ; ")) }
 }
 
-fn template(ctx: &mut Ctx, kind: usize) -> String {
-    let mut h = Hist::new();
+fn template(ctx: &mut Ctx, kind: usize, handler: bool) -> String {
+    let mut h = Hist::new(handler);
     let idx_early = ctx.chance(3, 4);
     if ctx.chance(1, 2) { h.seed_facts(ctx); }
     if idx_early { h.push(ctx, "idx".into()); }
@@ -460,7 +553,9 @@ fn template(ctx: &mut Ctx, kind: usize) -> String {
     h.line()
 }
 
-const WITNESSES: [&str; 6] = [
+const WITNESSES: [&str; 7] = [
+    // the same through the server: schema + `.index create`, rules as `+head <- body`, `?b(X)`
+    "c18.hist h | ins e 1,1 ; idx ; reg a(X)<-e(X,Y) ; reg b(X)<-a(X) ; m ; q b(X) ; ins e 2,2 ; q b(X) ; m ; mat b 1 ; ins e 3,3 ; q b(X)",
     // DESIGN §5 C18 as first written: registration alone never materialises on the pinned tree
     "c18.hist se | ins e 1,1 ; idx ; reg a(X)<-e(X,Y) ; reg b(X)<-a(X) ; m ; q b(X) ; ins e 2,2 ; q b(X) ; m",
     "c18.hist se | idx ; ins f 1 ; reg a(X)<-f(X) ; reg b(X)<-a(X) ; mat b 1 ; ins f 2 ; q b(X)",
@@ -488,11 +583,13 @@ fn exhaustive(ctx: &mut Ctx, out: &mut Vec<String>) {
 
 pub fn gen(ctx: &mut Ctx) -> Vec<String> {
     let mut out: Vec<String> = WITNESSES.iter().map(|s| s.to_string()).collect();
-    let n = ctx.budget(700, 6000);
+    let n = ctx.budget(520, 5000);
     for i in 0..n {
         let kind = i % 8;                 // kinds 6,7 = random soup
         ctx.count(&format!("template_{}", kind.min(6)));
-        out.push(template(ctx, kind));
+        let handler = i % 5 == 4;          // every fifth history goes through the protocol handler as IQL text
+        if handler { ctx.count("via_handler"); }
+        out.push(template(ctx, kind, handler));
     }
     if ctx.thorough { exhaustive(ctx, &mut out); }
     out
